@@ -520,7 +520,11 @@ fn eval_pdiff(prop: &str, pc: PCase, what: &str) -> CaseRec {
                             while e > 0 && b[e - 1] == b'\n' {
                                 e -= 1;
                             }
-                            let want = format!("+{prefix}{}", String::from_utf8_lossy(&b[..e]));
+                            // printable text as it is; anything else as the escaped expectation of the line (fix 0b0618c;
+                            // before, the renderer -- and this oracle with it -- wrote the lossy text)
+                            let content = &b[..e];
+                            let text = if pc.escaper.has_unprintable(content) { pc.escaper.escaped_expectation(content) } else { String::from_utf8_lossy(content).to_string() };
+                            let want = format!("+{prefix}{text}");
                             if !have.contains(want.as_str()) {
                                 fails.push(("C19:missing-difference".into(), format!("diff: unexpected line #{i} {:?} not shown :: {}", clip(&want), witness(&pc))));
                             }
